@@ -359,6 +359,47 @@ pub fn run(run: &Run) {
             }
         }
     });
+    // many messages in flight at once (tables of partial messages that are bounded or pruned): N two- and
+    // three-chunk messages on N distinct chunk stream ids, chunks sent round-robin, and in a sliding window
+    for n in [5usize, 16, 17, 40, 300] {
+        for cs in [2u32, 128] {
+            let msgs: Vec<MsgSpec> = (0..n).map(|i| {
+                let csid = if i % 3 == 0 { 3 + i as u32 } else if i % 3 == 1 { 64 + i as u32 } else { 320 + i as u32 };
+                let form = if csid <= 63 { 1 } else if csid <= 319 { 2 } else { 3 };
+                MsgSpec { csid, form, ty: if i % 2 == 0 { 8 } else { 9 }, msid: 1 + (i % 3) as u32, ts: 5 + i as u32, len: cs as usize * (2 + i % 2) + 1, hist: None, fmt: 0 }
+            }).filter(|m| m.csid <= 63 || m.form > 1).collect();
+            let n = msgs.len();
+            let counts: Vec<usize> = msgs.iter().map(|m| (m.len + cs as usize - 1) / cs as usize).collect();
+            // round robin
+            let mut sched: Vec<usize> = Vec::new();
+            for round in 0..4 {
+                for i in 0..n {
+                    if round < counts[i] {
+                        sched.push(i);
+                    }
+                }
+            }
+            check_case(&Case { cs, msgs: msgs.clone(), schedule: sched, resize: None }, run, &steps, &stats);
+            // sliding window: message i+1 starts before message i has finished
+            let mut sched: Vec<usize> = Vec::new();
+            let mut left = counts.clone();
+            for i in 0..n {
+                sched.push(i);
+                left[i] -= 1;
+                if i > 0 {
+                    while left[i - 1] > 0 {
+                        sched.push(i - 1);
+                        left[i - 1] -= 1;
+                    }
+                }
+            }
+            while left[n - 1] > 0 {
+                sched.push(n - 1);
+                left[n - 1] -= 1;
+            }
+            check_case(&Case { cs, msgs, schedule: sched, resize: None }, run, &steps, &stats);
+        }
+    }
     let total = stats[0].load(Ordering::Relaxed);
     let overl = stats[1].load(Ordering::Relaxed);
     run.set("states", json!(total));
